@@ -5,7 +5,7 @@ from ..common import get_repo, parallel_map
 from .. import proc, refsem
 from .. import simpcheck as sc
 
-ORACLES = ["free", "atoms", "qf", "types", "size0", "size1", "size2", "size3", "size4", "size5"]
+ORACLES = ["free", "atoms", "qf", "types", "ctypes", "size0", "size1", "size2", "size3", "size4", "size5"]
 BOOL_CONN = {"AND", "OR", "NOT", "IMPLIES", "IFF"}
 RELS = {"EQUALS", "LE", "LT", "BV_ULT", "BV_ULE", "BV_SLT", "BV_SLE", "STR_CONTAINS", "STR_PREFIXOF", "STR_SUFFIXOF"}
 
@@ -152,6 +152,9 @@ def _job(job):
         if which == "types":
             o = w.new_walker("pysmt.oracles.TypesOracle", env)
             return it.call(it.getattr(o, "get_types"), [f])
+        if which == "ctypes":
+            o = w.new_walker("pysmt.oracles.TypesOracle", env)
+            return it.call(it.getattr(o, "get_types"), [f], {"custom_only": True})
         m = int(which[4:])
         o = w.new_walker("pysmt.oracles.SizeOracle", env)
         return it.call(it.getattr(o, "get_size"), [f, m])
@@ -176,8 +179,11 @@ def _job(job):
             if bool(r) == exp:
                 return proc.ProcResult(shape, "valid", "quantifier free: %s" % exp)
             return proc.ProcResult(shape, "invalid", "is_qf reports %s, the term %s a quantifier" % (r, "contains" if not exp else "has no"))
-        if which == "types":
+        if which in ("types", "ctypes"):
             exp = ref_types(w, f)
+            if which == "ctypes":
+                # the user-declared sorts among them, wherever they occur (also inside array / parametric sorts only)
+                exp = set(t for t in exp if t[0] == "CUSTOM")
             got = set(w.sort_of_tyobj(t) for t in r)
             if got == exp:
                 return proc.ProcResult(shape, "valid", "sorts %s" % sorted(map(str, exp)))
@@ -201,7 +207,8 @@ def run(ctx):
         shapes = proc.in_contexts(shapes)
     jobs = [(o, sh) for sh in shapes for o in ORACLES]
     outs = parallel_map(_job, jobs)
-    label = {"free": "FreeVarsOracle", "atoms": "AtomsOracle", "qf": "QuantifierOracle", "types": "TypesOracle"}
+    label = {"free": "FreeVarsOracle", "atoms": "AtomsOracle", "qf": "QuantifierOracle", "types": "TypesOracle",
+             "ctypes": "TypesOracle[custom_only]"}
     for res in outs:
         for which, shape, kind, detail in res:
             name = label.get(which, "SizeOracle[%s]" % which[4:])
